@@ -466,3 +466,6 @@ func H_Close_Short_SameBlock() {
 	settledThisBlock = true
 	closePos(perptypes.Position_SHORT)
 }
+
+// Setup exposes the symbolic perpetual pool state (no explicit position) to other harness packages (C18).
+func Setup() *wire.Env { return setup().env }
